@@ -22,9 +22,9 @@ for s in sorted(os.listdir(R + '/seeded')):
     files = sorted(set(re.findall(r'^\+\+\+ b/(\S+)', open(d + '/patch.diff').read(), re.M)))
     meta = {
         'seed': s, 'property': s.split('-')[0], 'title': title, 'files_changed': files,
-        'breaks': section(txt, 'what it breaks', 'breaks', 'the change', 'change')[:1500],
+        'breaks': section(txt, 'what it breaks', 'breaks', 'why it is wrong', 'the change', 'what was changed', 'change')[:1500],
         'needs_to_manifest': section(txt, 'needs to manifest', 'manifest', 'trigger')[:1500],
-        'author_ran': section(txt, 'what i ran', 'ran', 'verification', 'verified')[:1500],
+        'author_ran': section(txt, 'what i ran', 'ran', 'verification', 'verified', 'demonstration')[:1500],
         'confirmed_by_me': {
             'how': 'tools/confirm_seeds.sh: scratch worktree of /repo HEAD under /tmp, git apply, cmake+ninja, ctest (114 tests), run.sh against the changed tree and against a pristine tree; worktrees removed afterwards',
             'repo_head': conf.get('repo_head'), 'applies': conf.get('applies_to_head') == 1, 'builds': conf.get('builds') == 1,
